@@ -373,3 +373,116 @@ def r_lookup(ctx, rule, tables):
                         " / ".join("(%s)" % ",".join(k) for k in keys))
         ctx.ob(rule, construct_of(e) + " [lookup]", ok, e, "" if ok else why)
     ctx.require(rule, n, 1, "single-row lookups")
+
+
+def r_collation(ctx, rule, tables, what):
+    """Identifiers (app ids, names, sides, mailbox ids) are opaque strings that
+    the Python side compares exactly; every `col = ?` the rules reason about is
+    an exact comparison only if the column has the default BINARY collation.  A
+    `COLLATE NOCASE` / `RTRIM` column makes two different identifiers one row
+    for SQL while they stay two objects for the server."""
+    schema = ctx.repo.channel_schema()
+    ctx.rule(rule, "the identifier columns of %s compare exactly (no COLLATE other than "
+             "BINARY)" % "/".join("`%s`" % t for t in tables))
+    n = 0
+    for tname in tables:
+        t = schema.tables.get(tname)
+        if t is None:
+            raise AnalysisError("%s: table %s vanished from the channel schema" % (rule, tname))
+        for c in t.columns:
+            n += 1
+            coll = c.get("collate")
+            ok = coll in (None, "BINARY")
+            if not ok:
+                ctx.ob(rule, "%s.%s COLLATE %s" % (tname, c["name"], coll), False,
+                       "%s/channel-v1.sql" % "src/wormhole_mailbox_server/db-schemas",
+                       "`%s`.`%s` is compared with COLLATE %s: identifiers that differ only "
+                       "in case / trailing blanks are one row to every `%s=?` while the "
+                       "server treats them as different: %s" % (
+                           tname, c["name"], coll, c["name"], what))
+    ctx.ob(rule, "columns of %s compare exactly" % "/".join(tables),
+           not any(o.rule == rule and not o.ok for o in ctx.obligations), "",
+           "%d columns" % n)
+    if n == 0:
+        raise AnalysisError("%s: no columns examined" % rule)
+
+
+def r_callers(ctx, rule, op, cmds, what):
+    """who-may-call: the operation `op` (a qualified method name found by role)
+    is invoked only while handling one of the commands `cmds`.  A call from a
+    disconnect callback, the timer or another command's handler performs the
+    operation on behalf of a client that did not ask for it."""
+    from ..events import each_event, handler_for
+    model = ctx.model
+    allowed = set("WebSocketServer." + handler_for(model, c) for c in cmds)
+    ctx.rule(rule, "%s is called only by the handler(s) of %s" % (
+        op, "/".join(cmds)))
+    n = 0
+    seen = set()
+    for p, e, loops in each_event(model, model.runtime_entries(), ("call",)):
+        if e["callee"] != op:
+            continue
+        n += 1
+        chain = e["stack"]
+        ok = any(f in allowed for f in chain)
+        key = (e["site"], ok)
+        if key in seen:
+            continue
+        seen.add(key)
+        caller = e["func"]
+        ctx.ob(rule, "%s called from %s" % (op, caller), ok, e,
+               "" if ok else "%s is carried out from %s (entry %s), not by a %s command: %s"
+               % (op, caller, p.entry, "/".join(cmds), what))
+    ctx.require(rule, n, 1, "calls of %s" % op)
+
+
+def r_wire(ctx, rule):
+    """What is delivered is what was built: a frame goes out as
+    json.dumps(<fields>).encode("utf-8") and a command comes in as
+    json.loads(payload[.decode("utf-8")]) -- nothing else (normalisation, case
+    folding, stripping, re-encoding ...) sits between the field values the
+    rules reason about and the bytes on the wire."""
+    from ..events import each_event
+    from ..terms import walk
+    model = ctx.model
+    ctx.rule(rule, "frames are serialised by json.dumps + encode and parsed by [decode +] "
+             "json.loads only; no other transformation touches the text in between")
+    nout = nin = 0
+    bad_out = {}
+    bad_in = {}
+    for p, e, loops in each_event(model, model.runtime_entries(), ("send",)):
+        nout += 1
+        t = e["payload"]
+        ok = False
+        if t[0] == "call" and t[1] == ".encode" and t[2] and t[2][0][0] == "call" and \
+                t[2][0][1] == "json.dumps" and t[2][0][2] and \
+                t[2][0][2][0][0] in ("kwdict", "dictlit"):
+            enc = t[2][1:]
+            ok = all(a == ("const", "utf-8") or a == ("const", "utf8") for a in enc)
+        elif t[0] == "call" and t[1] == "json.dumps":
+            ok = True
+        if not ok:
+            bad_out.setdefault(e["site"], e)
+        for x in walk(t):
+            if x[0] == "call" and x[1] == "json.loads":
+                nin += 1
+                a = x[2][0] if x[2] else None
+                okin = a is not None and (a == ("param", "payload") or (
+                    a[0] == "call" and a[1] == ".decode" and a[2] and
+                    a[2][0] == ("param", "payload") and
+                    all(y in (("const", "utf-8"), ("const", "utf8")) for y in a[2][1:])))
+                if not okin:
+                    bad_in.setdefault(e["site"], (e, a))
+    from ..terms import show
+    for site, e in sorted(bad_out.items()):
+        ctx.ob(rule, "outbound frame at %s:%d" % site[:2], False, e,
+               "the bytes sent are %s: the text is transformed after the fields were put "
+               "together, so what a subscriber receives can differ from what was added"
+               % show(e["payload"])[:120])
+    for site, (e, a) in sorted(bad_in.items()):
+        ctx.ob(rule, "inbound command (seen at %s:%d)" % site[:2], False, e,
+               "commands are parsed from %s, not from the received bytes as they are"
+               % show(a)[:100])
+    ctx.ob(rule, "frames pass through json and utf-8 only", not bad_out and not bad_in, "",
+           "%d frames, %d echoed command values" % (nout, nin))
+    ctx.require(rule, nout, 10, "outbound frames")
